@@ -11,7 +11,7 @@ import z3
 
 from . import frames
 from .frames import Frame, KeySpace, Poison, RowAxis, _null, _use
-from .values import SymRaise, ExcVal, Undecided, V, to_term
+from .values import only_kw, SymRaise, ExcVal, Undecided, V, to_term
 
 
 def _is_false(t):
@@ -103,6 +103,7 @@ class PartsFrame:
         if name == "reset_index":
 
             def reset_index(drop=False, inplace=False, **kw):
+                only_kw("levels.reset_index", kw)
                 if not drop:
                     raise Undecided("reset_index(drop=False) on a multi-level table")
                 return self.map(lambda p: p._new(index=("range", p.axis.name)))
@@ -111,6 +112,7 @@ class PartsFrame:
         if name == "drop":
 
             def drop(labels=None, axis=0, columns=None, inplace=False, **kw):
+                only_kw("levels.drop", kw)
                 names = columns if columns is not None else labels
                 if columns is None and axis != 1:
                     raise Undecided("DataFrame.drop of rows")
@@ -144,6 +146,7 @@ class PartsBool:
         if name in ("all", "any"):
 
             def red(axis=0, **kw):
+                only_kw("levels.red", kw)
                 if axis != 1:
                     raise Undecided("reduction of a multi-level table along rows")
                 masks = []
@@ -262,6 +265,7 @@ def _at_most_one_row(interp, coarse):
 def merge_with_parts(interp, left, right, how="inner", on=None, **kw):
     """Frame.merge(multi-level table): the concatenation of the merges with every level (a level whose join key is null
     matches nothing -- the left frame's keys are never null)"""
+    only_kw("levels.merge_with_parts", kw)
     if kw:
         raise Undecided(f"merge options {sorted(kw)}")
     on = [] if on is None else [on] if isinstance(on, str) else list(on)
